@@ -245,10 +245,9 @@ def checkC04 (toks : List String) (res : String) : Option Verdict :=
       match parseScRes res with
       | some (t, e, _, x) => some (t == D && e == ed && x == want)
       | none => some false
-    -- power_value<unsigned, n, radix != 2> is computed by repeated multiplication and wraps silently
-    let n := (es - ed).natAbs
-    let cls := if rx != 2 && !(promote S).signed && ((rx : Int)^n > (promote S).max) then "C04.unsigned_power_value_wraps" else ""
-    some { model := showRes showNum m, spec := spec, cls := cls, branch := "cvt" ++ (if es < ed then "/narrow" else if es > ed then "/widen" else "/same"),
+    -- (power_value<unsigned, n, radix != 2> used to wrap silently: the repaired class
+    -- C04.unsigned_power_value_wraps is no longer excused, such an instantiation is ill-formed)
+    some { model := showRes showNum m, spec := spec, cls := "", branch := "cvt" ++ (if es < ed then "/narrow" else if es > ed then "/widen" else "/same"),
            nontrivial := constrained }
   | ["tof", rx, st, es, fm, v] => do
     -- scaled integer -> floating point: must be the correctly rounded value of rep * radix^exp
